@@ -579,7 +579,8 @@ func (e *FunctionCallExpr) executeFuncBatch(funcObj *Function, chunk []KVPair, c
 		err error
 	)
 	for i := 0; i < len(chunk); i++ {
-		ret[i], err = funcObj.Body(chunk[i], e.Args, ctx)
+		// no context: its per-row cache would still hold the previous row's values
+		ret[i], err = funcObj.Body(chunk[i], e.Args, nil)
 		if err != nil {
 			return nil, err
 		}
